@@ -1,48 +1,50 @@
 /-
-Process-wide state the implementation writes, as the thread model of C12 accounts for it (pinned list).
+Process-wide state the implementation writes, as the models of C11 (histories) and C12 (threads) account for it (pinned list).
 
 Each entry is a line of the static inventory computed by harness/shared_inventory.py from the CURRENT /repo source (regenerated
-into ESV/Gen/Shared.lean on every run of ./check C12), paired with how it is treated.  `ESV.C12.shared_inventory_pinned`
-decides that the regenerated inventory equals the keys of this list: a new write to interpreter-wide or module/class-level
-state anywhere in the package (a `sys.set*` call, a `global`, a mutated module-level object, an unshadowed class-level
-mutable, …) — or a new kind of mutation of a listed object — no longer builds, and ./check C12 then searches schedules for it.
-Core Lean only.
+into ESV/Gen/Shared.lean on every run of ./check C11 and ./check C12), paired with how it is treated.
+`ESV.C11.history_state_inventory_pinned` / `ESV.C12.shared_inventory_pinned` decide that the regenerated inventory equals the
+keys of this list: a new write to interpreter-wide or module/class-level state anywhere in the package (a `sys.set*` call, a
+`global`, a mutable default argument, a module-level object mutated by a function, an unshadowed class-level mutable, a
+container filled inside a function = lazy initialisation, …) — or a new kind of mutation of a listed object — no longer builds,
+and the checks then search histories / schedules for it.  Mutations are tagged @def (module or class body: runs once, at import)
+or @fn (inside a function).  Core Lean only.
 -/
 namespace ESV.Cache
 
 def modelledShared : List (String × String) := [
   ("antlr|antlr/ExplorerScriptLexer.py|ExplorerScriptLexer.atn",
-    "not modelled: shared prediction caches of the generated parsers, mutated by the antlr4 runtime; schedule exploration only (known finding: ParseError message)"),
+    "not modelled: shared prediction caches of the generated parsers, mutated by the antlr4 runtime; history / schedule exploration only (known finding: ParseError message)"),
   ("antlr|antlr/ExplorerScriptLexer.py|ExplorerScriptLexer.decisionsToDFA",
-    "not modelled: shared prediction caches of the generated parsers, mutated by the antlr4 runtime; schedule exploration only (known finding: ParseError message)"),
+    "not modelled: shared prediction caches of the generated parsers, mutated by the antlr4 runtime; history / schedule exploration only (known finding: ParseError message)"),
   ("antlr|antlr/ExplorerScriptParser.py|ExplorerScriptParser.atn",
-    "not modelled: shared prediction caches of the generated parsers, mutated by the antlr4 runtime; schedule exploration only (known finding: ParseError message)"),
+    "not modelled: shared prediction caches of the generated parsers, mutated by the antlr4 runtime; history / schedule exploration only (known finding: ParseError message)"),
   ("antlr|antlr/ExplorerScriptParser.py|ExplorerScriptParser.decisionsToDFA",
-    "not modelled: shared prediction caches of the generated parsers, mutated by the antlr4 runtime; schedule exploration only (known finding: ParseError message)"),
+    "not modelled: shared prediction caches of the generated parsers, mutated by the antlr4 runtime; history / schedule exploration only (known finding: ParseError message)"),
   ("antlr|antlr/ExplorerScriptParser.py|ExplorerScriptParser.sharedContextCache",
-    "not modelled: shared prediction caches of the generated parsers, mutated by the antlr4 runtime; schedule exploration only (known finding: ParseError message)"),
+    "not modelled: shared prediction caches of the generated parsers, mutated by the antlr4 runtime; history / schedule exploration only (known finding: ParseError message)"),
   ("antlr|antlr/SsbScriptLexer.py|SsbScriptLexer.atn",
-    "not modelled: shared prediction caches of the generated parsers, mutated by the antlr4 runtime; schedule exploration only (known finding: ParseError message)"),
+    "not modelled: shared prediction caches of the generated parsers, mutated by the antlr4 runtime; history / schedule exploration only (known finding: ParseError message)"),
   ("antlr|antlr/SsbScriptLexer.py|SsbScriptLexer.decisionsToDFA",
-    "not modelled: shared prediction caches of the generated parsers, mutated by the antlr4 runtime; schedule exploration only (known finding: ParseError message)"),
+    "not modelled: shared prediction caches of the generated parsers, mutated by the antlr4 runtime; history / schedule exploration only (known finding: ParseError message)"),
   ("antlr|antlr/SsbScriptParser.py|SsbScriptParser.atn",
-    "not modelled: shared prediction caches of the generated parsers, mutated by the antlr4 runtime; schedule exploration only (known finding: ParseError message)"),
+    "not modelled: shared prediction caches of the generated parsers, mutated by the antlr4 runtime; history / schedule exploration only (known finding: ParseError message)"),
   ("antlr|antlr/SsbScriptParser.py|SsbScriptParser.decisionsToDFA",
-    "not modelled: shared prediction caches of the generated parsers, mutated by the antlr4 runtime; schedule exploration only (known finding: ParseError message)"),
+    "not modelled: shared prediction caches of the generated parsers, mutated by the antlr4 runtime; history / schedule exploration only (known finding: ParseError message)"),
   ("antlr|antlr/SsbScriptParser.py|SsbScriptParser.sharedContextCache",
-    "not modelled: shared prediction caches of the generated parsers, mutated by the antlr4 runtime; schedule exploration only (known finding: ParseError message)"),
+    "not modelled: shared prediction caches of the generated parsers, mutated by the antlr4 runtime; history / schedule exploration only (known finding: ParseError message)"),
   ("call|ssb_converting/decompiler/graph_building/graph_minimizer.py|<module>|sys.setrecursionlimit",
     "import-time write of a constant (runs once under the import lock, before any compile()/convert() of the process can run the module's code)"),
   ("class-object|ssb_converting/decompiler/write_handlers/label_jump.py|LabelJumpWriteHandler._label_jump_marker_handlers:dict|unshadowed",
-    "class-level dispatch table, filled at class creation and only read afterwards"),
-  ("class-object|ssb_converting/decompiler/write_handlers/simple_op.py|SimpleOperationWriteHandler._ssb_operations_special_cases_handlers:dict|unshadowed",
-    "class-level dispatch table, filled at class creation and only read afterwards"),
-  ("module-object|ssb_converting/decompiler/graph_building/graph_utils.py|cache_lock:instance:Lock|with",
+    "class-level dispatch table, complete when the class body has run (definition time) and only read afterwards"),
+  ("class-object|ssb_converting/decompiler/write_handlers/simple_op.py|SimpleOperationWriteHandler._ssb_operations_special_cases_handlers:dict|unshadowed,subscript@def",
+    "class-level dispatch table, complete when the class body has run (definition time) and only read afterwards"),
+  ("module-object|ssb_converting/decompiler/graph_building/graph_utils.py|cache_lock:instance:Lock|with@fn",
     "the lock: its `with` blocks are the atomic sections of ESV/Cache/Threads.lean"),
-  ("module-object|ssb_converting/decompiler/graph_building/graph_utils.py|find_first_common_next_vertex_in_edges_cache:dict|subscript",
+  ("module-object|ssb_converting/decompiler/graph_building/graph_utils.py|find_first_common_next_vertex_in_edges_cache:dict|subscript@fn",
     "the memo table: `Memo` of ESV/Cache/Model.lean; written only by subscript assignment inside the locked sections (lookup, store, clear)"),
-  ("module-object|ssb_converting/ssb_special_ops.py|OPS_WITH_JUMP_TO_MEM_OFFSET:dict|method:update",
-    "import-time construction of a constant table (module level); never written by compile()/convert()")]
+  ("module-object|ssb_converting/ssb_special_ops.py|OPS_WITH_JUMP_TO_MEM_OFFSET:dict|method:update@def",
+    "constant table completed at module level (definition time); never written by a function")]
 
 def modelledSharedKeys : List String := modelledShared.map (·.1)
 
